@@ -5,7 +5,7 @@
     bins table has the objects o1 o2 o3 as chrom/start/end plus c's own extra columns with c's payloads,
     and whose pixels and indexes tables hold exactly the columns given for c.
     [keeps w w']: every link that could be looked up and every dataset object is unchanged. *)
-From Cooler Require Import Model.Scool Proofs.ScoolProofs.
+From Cooler Require Import Model.Scool Proofs.H5Proofs Proofs.ScoolProofs.
 
 (** appending one cell on a fresh name keeps everything that was readable (frame) and writes its tables *)
 Theorem C17_append_cell_frame : forall w f a0 ls0 name sp w',
@@ -53,6 +53,47 @@ Theorem C17_every_cell_reads_back : forall w f rchroms rbins rattrs cells w' dc 
     cells_state w' f (map c_name (sort_cells cells)).
 Proof. exact create_scool_spec. Qed.
 Print Assumptions C17_every_cell_reads_back.
+
+(** every cell group carries the cooler tag after all appends, and the attributes of every older object are kept *)
+Theorem C17_every_cell_is_tagged : forall cells w f rc rb o1 o2 o3 done w',
+  root_ok w f rc rb o1 o2 o3 -> cells_state w f done ->
+  NoDup (done ++ map c_name cells) -> Forall cell_tagged cells ->
+  append_cells w f cells = (Ok, w') ->
+  attrs_kept w w' /\
+  forall c, In c cells -> forall gc g, child w' f 0 "cells"%string = Some gc -> child w' f gc (c_name c) = Some g ->
+    is_cooler_at w' f g = true.
+Proof. exact append_cells_coolers. Qed.
+Print Assumptions C17_every_cell_is_tagged.
+
+(** recognition: the file written by create_scool (mode w, at least one cell, distinct names, every cell tagged
+    as a cooler, the root tagged with the single-cell marker) is recognised by is_scool_file ... *)
+Theorem C17_recognised_as_single_cell_file : forall w f rchroms rbins rattrs cells w' dc ds de,
+  create_scool w f true rchroms rbins rattrs cells = (Ok, w') ->
+  NoDup (map c_name cells) -> cells <> [] -> Forall cell_tagged cells ->
+  In ("chrom"%string, dc) rbins -> In ("start"%string, ds) rbins -> In ("end"%string, de) rbins ->
+  NoDup (map fst rattrs) -> In ("format"%string, AStr MAGIC_SCOOL) rattrs ->
+  is_scool_file w' f = Some true.
+Proof. exact create_scool_recognised. Qed.
+Print Assumptions C17_recognised_as_single_cell_file.
+
+(** ... and no file without the marker is *)
+Theorem C17_not_recognised_without_marker : forall w f, file_exists w f = true ->
+  has_format w f 0 MAGIC_SCOOL = false -> is_scool_file w f = Some false.
+Proof. exact not_scool_without_marker. Qed.
+Print Assumptions C17_not_recognised_without_marker.
+
+(** listing (partial: one inclusion): whenever list_scool_cells returns on that file (no external links, unique
+    member names), every given cell is listed as /cells/<name>.  That nothing else is listed follows from
+    C15_listing_exact only together with the fact that no other object of the file carries the cooler tag,
+    which is not proved here (it is observed on every run); the natural order is applied by the caller. *)
+Theorem C17_every_cell_listed_partial : forall w f rchroms rbins rattrs cells w' dc ds de L,
+  create_scool w f true rchroms rbins rattrs cells = (Ok, w') ->
+  NoDup (map c_name cells) -> Forall cell_tagged cells ->
+  In ("chrom"%string, dc) rbins -> In ("start"%string, ds) rbins -> In ("end"%string, de) rbins ->
+  no_ext w' f -> nodup_keys w' f -> list_scool_cells w' f = (Ok, L) ->
+  forall c, In c cells -> In (cell_path c) L.
+Proof. exact create_scool_cells_listed. Qed.
+Print Assumptions C17_every_cell_listed_partial.
 
 (** sorting the cell names only permutes them *)
 Theorem C17_sorted_names_are_the_given_names : forall l, Permutation.Permutation (sort_cells l) l.
